@@ -1,14 +1,47 @@
 // c01: log ingest-to-query round trip.
+//
+// The real siglens code runs in worker processes (one fresh data directory per scenario; a
+// second worker on the same directory = restart).  A scenario is a list of ops: bulk ingest
+// of generated JSON documents, flushes (block boundaries), segment rotations, restarts and
+// paged match-all queries over a covering time range.
+//
+//	(a) byte level (probe scenarios): before every flush a verif-tag hook in package writer
+//	    snapshots the open block's column buffers and dictionary state; after the flush the
+//	    block is read back from the .csg files (raw bytes, and through the real
+//	    SegmentFileReader / TimeRangeReader).  The Coq model (ColStore.v, TsEnc.v, Tlv.v) must
+//	    produce the same buffers before and after consolidateColumnTypes, the same encoding
+//	    choice and payload (dictionary entries up to Go's map order), the same timestamp block,
+//	    the same AllSeenColumnSizes, and its readers the same records on the same bytes.
+//	(b) end to end: the multiset of (timestamp, fields) a paged `*` query returns is compared
+//	    with what was sent (property oracle, independent of the model) and with the model's
+//	    read_all.
+//	(c) codec streams without server state: dictionary pack/unpack and TLV decoding of the
+//	    real functions against the model on random inputs.
 package main
 
 import (
+	"bytes"
 	"context"
+	"encoding/hex"
 	"encoding/json"
 	"fmt"
+	"hash/fnv"
+	"math"
 	"os"
 	"os/exec"
 	"path/filepath"
+	"sort"
+	"strconv"
+	"strings"
+	"sync"
 	"time"
+
+	"github.com/siglens/siglens/pkg/segment/reader/segread/segreader"
+	"github.com/siglens/siglens/pkg/segment/structs"
+	sutils "github.com/siglens/siglens/pkg/segment/utils"
+	"github.com/siglens/siglens/pkg/segment/writer"
+
+	"verifharness/vhlib"
 )
 
 // runScenario runs ops in worker processes on a fresh directory; a "restart" op ends a
@@ -40,6 +73,9 @@ func runScenario(dir string, ops []Op) ([]Obs, error) {
 			cmd := exec.CommandContext(ctx, os.Args[0], "worker", data, sp, op)
 			out, err := cmd.CombinedOutput()
 			cancel()
+			if os.Getenv("C01_LOG") != "" {
+				fmt.Fprintln(os.Stderr, string(out))
+			}
 			if err != nil {
 				tail := string(out)
 				if len(tail) > 800 {
@@ -63,6 +99,889 @@ func runScenario(dir string, ops []Op) ([]Obs, error) {
 	return all, nil
 }
 
+// ---------- Coq printers ----------
+// byte string for the Coq side: 7 bytes per primitive integer (see ColStoreCheck.bx)
+func coqBx(b []byte) string {
+	if len(b) == 0 {
+		return "[]"
+	}
+	var sb strings.Builder
+	fmt.Fprintf(&sb, "(bx %d [", len(b))
+	for i := 0; i < len(b); i += 7 {
+		var w uint64
+		for j := 0; j < 7 && i+j < len(b); j++ {
+			w |= uint64(b[i+j]) << (8 * uint(j))
+		}
+		if i > 0 {
+			sb.WriteByte(';')
+		}
+		sb.WriteString(strconv.FormatUint(w, 10))
+	}
+	sb.WriteString("]%uint63)")
+	return sb.String()
+}
+func coqBxS(s string) string { return coqBx([]byte(s)) }
+
+func coqVal(v Val) string {
+	switch v.K {
+	case "s":
+		return "VStr " + coqBxS(v.S)
+	case "i":
+		return "VInt " + vhlib.CoqZ(v.I) + "%Z"
+	case "f":
+		return "VFloat " + vhlib.CoqN(v.F)
+	case "b":
+		return "VBool " + vhlib.CoqBool(v.B)
+	}
+	return "VNull"
+}
+
+// column names are defined once per scenario (kS_i) and referred to by name
+type keyNamer struct {
+	si    int
+	names map[string]string
+	defs  []string
+}
+
+var curKeys *keyNamer
+
+func coqKey(k string) string {
+	if curKeys == nil {
+		return coqBxS(k)
+	}
+	if n, ok := curKeys.names[k]; ok {
+		return n
+	}
+	n := fmt.Sprintf("k%d_%d", curKeys.si, len(curKeys.names))
+	curKeys.names[k] = n
+	curKeys.defs = append(curKeys.defs, fmt.Sprintf("Definition %s : bytes := %s.\n", n, coqBxS(k)))
+	return n
+}
+
+func coqFields(fs []Field) string {
+	items := make([]string, len(fs))
+	for i, f := range fs {
+		items[i] = "(" + coqKey(f.Key) + "," + coqVal(f.V) + ")"
+	}
+	return "[" + strings.Join(items, ";") + "]"
+}
+
+func coqEvent(e Event) string {
+	return "mkev " + vhlib.CoqN(e.Ts) + " " + coqFields(e.Fields)
+}
+
+func hexBytes(h string) string {
+	b, _ := hex.DecodeString(h)
+	return coqBx(b)
+}
+
+// records as (offset, length) of an occurrence of their bytes in the payload; None if a record is an
+// error or its bytes do not occur in the payload (strict: that is reported as a harness error by the caller)
+func coqRecs(recs []string, payload []byte) (string, bool) {
+	if recs == nil {
+		return "None", true
+	}
+	items := make([]string, len(recs))
+	off := 0
+	for i, r := range recs {
+		if strings.HasPrefix(r, "!") {
+			return "None", true
+		}
+		b, _ := hex.DecodeString(r)
+		at := -1
+		if off+len(b) <= len(payload) && bytes.Equal(payload[off:off+len(b)], b) {
+			at = off
+		} else {
+			at = bytes.Index(payload, b)
+		}
+		if at < 0 {
+			return "None", false
+		}
+		items[i] = fmt.Sprintf("(%d,%d)", at, len(b))
+		off = at + len(b)
+	}
+	return "(Some " + vhlib.CoqList(items) + ")", true
+}
+
+func coqColObs(c ColObs) (string, bool) {
+	dict := make([]string, len(c.PreDict))
+	for i, row := range c.PreDict {
+		dict[i] = "(" + hexBytes(row[0]) + ", [" + strings.Join(row[1:], ";") + "])"
+	}
+	enc := c.Enc
+	if enc < 0 {
+		enc = 255
+	}
+	seen := uint32(0)
+	if c.HasSeen {
+		seen = c.Seen
+	}
+	post := "None"
+	if c.Post != c.Pre {
+		post = "(Some " + hexBytes(c.Post) + ")"
+	}
+	payload := "None"
+	if c.Payload != c.Post {
+		payload = "(Some " + hexBytes(c.Payload) + ")"
+	}
+	pl, _ := hex.DecodeString(c.Payload)
+	recs, inside := coqRecs(c.Recs, pl)
+	recsSC, _ := coqRecs(c.RecsSC, pl)
+	return fmt.Sprintf("mkco %s %s %s %d %s %d %s %d %s %s", coqKey(c.Name), hexBytes(c.Pre), vhlib.CoqList(dict), c.PreCnt,
+		post, enc, payload, seen, recs, recsSC), inside
+}
+
+func coqBlockObs(f FlushObs) string {
+	cols := make([]string, len(f.Cols))
+	for i, c := range f.Cols {
+		t, inside := coqColObs(c)
+		if !inside {
+			t = "(* reader returned bytes that are not in the block *) " + t
+		}
+		cols[i] = "(" + t + ")"
+	}
+	tsread := "None"
+	if f.TsErr == "" {
+		items := make([]string, len(f.TsRead))
+		for i, t := range f.TsRead {
+			items[i] = vhlib.CoqN(t)
+		}
+		tsread = "(Some " + vhlib.CoqList(items) + ")"
+	}
+	return fmt.Sprintf("mkbo %d %s %s %s", f.RecCount, hexBytes(f.TsBlock), tsread, vhlib.CoqListNL(cols))
+}
+
+// canonical typed value of a query hit -> Val
+func parseCanon(s string) (Val, bool) {
+	switch {
+	case s == "n":
+		return Val{K: "n"}, true
+	case strings.HasPrefix(s, "s:"):
+		return Val{K: "s", S: s[2:]}, true
+	case strings.HasPrefix(s, "i:"):
+		n, err := strconv.ParseInt(s[2:], 10, 64)
+		return Val{K: "i", I: n}, err == nil
+	case strings.HasPrefix(s, "f:"):
+		n, err := strconv.ParseUint(s[2:], 16, 64)
+		return Val{K: "f", F: n}, err == nil
+	case s == "b:1":
+		return Val{K: "b", B: true}, true
+	case s == "b:0":
+		return Val{K: "b", B: false}, true
+	}
+	return Val{}, false
+}
+
+// ---------- number <-> text tables for the model ----------
+type fcTables struct {
+	pf map[string]string // string -> "None" | "(Some bits)"
+	ff map[uint64]string
+}
+
+func newTables() *fcTables { return &fcTables{pf: map[string]string{}, ff: map[uint64]string{}} }
+func (t *fcTables) addFloat(bits uint64) {
+	t.ff[bits] = strconv.FormatFloat(math.Float64frombits(bits), 'f', -1, 64)
+}
+func (t *fcTables) addStr(s string) {
+	if len(s) > 400 {
+		return // the generator's long strings are never numbers
+	}
+	if _, err := strconv.ParseInt(s, 10, 64); err == nil {
+		return
+	}
+	f, err := strconv.ParseFloat(s, 64)
+	if err != nil {
+		return
+	}
+	t.pf[s] = "(Some " + vhlib.CoqN(math.Float64bits(f)) + ")"
+	t.addFloat(math.Float64bits(f))
+}
+func (t *fcTables) coq() string {
+	var ps, fs []string
+	for _, k := range sortedStr(t.pf) {
+		ps = append(ps, "("+coqBxS(k)+", "+t.pf[k]+")")
+	}
+	var bits []uint64
+	for b := range t.ff {
+		bits = append(bits, b)
+	}
+	sort.Slice(bits, func(i, j int) bool { return bits[i] < bits[j] })
+	for _, b := range bits {
+		fs = append(fs, "("+vhlib.CoqN(b)+", "+coqBxS(t.ff[b])+")")
+	}
+	return "(fc_of " + vhlib.CoqList(ps) + " " + vhlib.CoqList(fs) + ")"
+}
+func sortedStr(m map[string]string) []string {
+	var ks []string
+	for k := range m {
+		ks = append(ks, k)
+	}
+	sort.Strings(ks)
+	return ks
+}
+
+// ---------- oracle ----------
+func numericParse(s string) (Val, bool) {
+	if n, err := strconv.ParseInt(s, 10, 64); err == nil {
+		return Val{K: "i", I: n}, true
+	}
+	if f, err := strconv.ParseFloat(s, 64); err == nil {
+		return Val{K: "f", F: math.Float64bits(f)}, true
+	}
+	return Val{}, false
+}
+
+func decimalText(v Val) string {
+	if v.K == "i" {
+		return strconv.FormatInt(v.I, 10)
+	}
+	return strconv.FormatFloat(math.Float64frombits(v.F), 'f', -1, 64)
+}
+
+type caseRef struct {
+	Scenario string   `json:"scenario"`
+	Stream   string   `json:"stream"`
+	Card     int      `json:"card"`
+	Ops      []Op     `json:"ops"`
+	Query    int      `json:"query_op"`
+	Ts       uint64   `json:"ts,omitempty"`
+	Key      string   `json:"key,omitempty"`
+	Sent     string   `json:"sent,omitempty"`
+	Got      string   `json:"got,omitempty"`
+	Doc      string   `json:"doc,omitempty"`
+	Note     []string `json:"note,omitempty"`
+}
+
+// evaluates one query result against the events that were sent and flushed
+func oracle(sum *vhlib.Summary, sc *Scenario, qi int, op Op, recs []map[string]string, expected []Event, nonNumStrCol map[string]bool) int {
+	fails := 0
+	fail := func(class, detail string, c caseRef) {
+		c.Scenario, c.Stream, c.Card, c.Ops, c.Query = sc.Name, sc.Stream, sc.Card, sc.Ops, qi
+		sum.Fail(class, detail, c)
+		fails++
+	}
+	byTs := map[uint64][]map[string]string{}
+	for _, r := range recs {
+		t, ok := r["timestamp"]
+		if !ok || !strings.HasPrefix(t, "u:") {
+			fail("event_invented", fmt.Sprintf("record without a timestamp: %v", r), caseRef{Got: fmt.Sprint(r)})
+			continue
+		}
+		n, _ := strconv.ParseUint(t[2:], 10, 64)
+		byTs[n] = append(byTs[n], r)
+	}
+	sentTs := map[uint64]bool{}
+	// values sent per column (for the migrated/changed distinction)
+	colVals := map[string]map[string]bool{}
+	for _, e := range expected {
+		sentTs[e.Ts] = true
+		for _, f := range e.Fields {
+			if colVals[f.Key] == nil {
+				colVals[f.Key] = map[string]bool{}
+			}
+			colVals[f.Key][f.V.canon()] = true
+		}
+	}
+	for t, rs := range byTs {
+		if !sentTs[t] {
+			fail("event_invented", fmt.Sprintf("a record with timestamp %d was returned but never sent: %v", t, rs[0]), caseRef{Ts: t, Got: fmt.Sprint(rs[0])})
+		}
+	}
+	for _, e := range expected {
+		rs := byTs[e.Ts]
+		if len(rs) == 0 && sc.Stream == "known:fieldless_first_block_breaks_flush" {
+			fail("fieldless_first_block_breaks_flush", fmt.Sprintf("event ts=%d %s was accepted and flushed but not returned (the segment's first block held only field-less events)", e.Ts, clip(e.Doc)), caseRef{Ts: e.Ts, Doc: clip(e.Doc)})
+			continue
+		}
+		if len(rs) == 0 {
+			fail("event_lost", fmt.Sprintf("event ts=%d %s was accepted and flushed but not returned", e.Ts, clip(e.Doc)), caseRef{Ts: e.Ts, Doc: clip(e.Doc)})
+			continue
+		}
+		if len(rs) > 1 {
+			fail("event_duplicated", fmt.Sprintf("event ts=%d returned %d times", e.Ts, len(rs)), caseRef{Ts: e.Ts, Doc: clip(e.Doc)})
+		}
+		got := map[string]string{}
+		for k, v := range rs[0] {
+			if k != "timestamp" && v != "n" {
+				got[k] = v
+			}
+		}
+		sent := map[string][]Val{} // several values only for a duplicated key
+		for _, f := range e.Fields {
+			if f.V.K != "n" {
+				sent[f.Key] = append(sent[f.Key], f.V)
+			}
+		}
+		keys := map[string]bool{}
+		for k := range got {
+			keys[k] = true
+		}
+		for k := range sent {
+			keys[k] = true
+		}
+		for _, k := range sortedKeys(keys) {
+			g, hasG := got[k]
+			ss := sent[k]
+			okv := false
+			for _, s := range ss {
+				if hasG && s.canon() == g {
+					okv = true
+				}
+			}
+			if !hasG && len(ss) == 0 {
+				okv = true
+			}
+			if okv {
+				continue
+			}
+			c := caseRef{Ts: e.Ts, Key: k, Got: clip(g), Doc: clip(e.Doc)}
+			if len(ss) > 0 {
+				c.Sent = clip(ss[0].canon())
+			}
+			// the relaxation the property allows
+			if len(ss) == 1 && ss[0].isNum() && hasG && g == "s:"+decimalText(ss[0]) {
+				if nonNumStrCol[k] {
+					sum.Count("relaxed/number_as_decimal_text")
+					continue
+				}
+				fail("number_becomes_text_without_string", fmt.Sprintf("column %q never held a non-numeric string, yet %s came back as text %s (event ts=%d)", k, ss[0].canon(), g, e.Ts), c)
+				continue
+			}
+			switch {
+			case sc.Stream == "known:fieldless_first_block_breaks_flush":
+				fail("fieldless_first_block_breaks_flush", fmt.Sprintf("after a first block of field-less events: column %q of event ts=%d: sent %s, returned %s", k, e.Ts, c.Sent, clip(g)), c)
+			case sc.DupCols[k]:
+				fail("duplicate_key_shifts_column", fmt.Sprintf("column %q received two values from one event (duplicate flattened key); event ts=%d sent %s, returned %s", k, e.Ts, c.Sent, clip(g)), c)
+			case len(ss) == 1 && ss[0].K == "b" && hasG && g == "s:"+strconv.FormatBool(ss[0].B):
+				fail("bool_becomes_text", fmt.Sprintf("column %q: bool %v came back as the string %s (event ts=%d)", k, ss[0].B, g, e.Ts), c)
+			case len(ss) == 1 && ss[0].K == "s" && hasG && func() bool { p, ok := numericParse(ss[0].S); return ok && p.canon() == g }():
+				fail("numeric_string_becomes_number", fmt.Sprintf("column %q: the string %q came back as the number %s (event ts=%d)", k, ss[0].S, g, e.Ts), c)
+			case len(ss) == 1 && ss[0].K == "s" && ss[0].S == "" && !hasG && !op.Nulls:
+				fail("empty_string_dropped_by_default", fmt.Sprintf("column %q: the empty string sent with event ts=%d is not returned by a default query (includeNulls unset)", k, e.Ts), c)
+			case k == "" && !hasG:
+				fail("empty_field_name_value_lost", fmt.Sprintf("the value %s sent under the empty field name \"\" is not returned (event ts=%d)", c.Sent, e.Ts), c)
+			case len(ss) == 1 && ss[0].K == "f" && hasG && strings.HasPrefix(g, "i:") && math.Abs(math.Float64frombits(ss[0].F)) >= 9.2e18:
+				fail("big_integer_literal_wraps", fmt.Sprintf("column %q: an integer literal beyond int64 (%s) came back as the unrelated int64 %s (event ts=%d, doc %s)", k, decimalText(ss[0]), g, e.Ts, clip(e.Doc)), c)
+			case hasG && colVals[k][g] || func() bool {
+				for _, f := range e.Fields {
+					if f.Key != k && f.V.canon() == g {
+						return true
+					}
+				}
+				return false
+			}():
+				fail("value_migrated", fmt.Sprintf("column %q of event ts=%d: sent %s, returned %s, which is a value of another event or column", k, e.Ts, c.Sent, clip(g)), c)
+			default:
+				fail("value_changed", fmt.Sprintf("column %q of event ts=%d: sent %s, returned %s", k, e.Ts, c.Sent, clip(g)), c)
+			}
+		}
+	}
+	return fails
+}
+
+func clip(s string) string {
+	if len(s) > 300 {
+		return s[:300] + "…"
+	}
+	return s
+}
+
+// ---------- evaluation of one scenario ----------
+type scenResult struct {
+	coq   string // Coq definition text: "Definition cN := ...": list nat of failed checks
+	ncoq  int
+	fails int
+}
+
+func evalScenario(sum *vhlib.Summary, mu *sync.Mutex, si int, sc *Scenario, obs []Obs) scenResult {
+	mu.Lock()
+	defer mu.Unlock()
+	var res scenResult
+	curKeys = &keyNamer{si: si, names: map[string]string{}}
+	defer func() { curKeys = nil }()
+	tabs := newTables()
+	nonNumStrCol := map[string]bool{}
+	for _, e := range sc.Events {
+		for _, f := range e.Fields {
+			switch f.V.K {
+			case "s":
+				tabs.addStr(f.V.S)
+				if _, ok := numericParse(f.V.S); !ok {
+					nonNumStrCol[f.Key] = true
+				}
+			case "f":
+				tabs.addFloat(f.V.F)
+			}
+		}
+	}
+	// which events were accepted
+	accepted := make([]bool, len(sc.Events))
+	for i, op := range sc.Ops {
+		if op.Kind != "ingest" {
+			continue
+		}
+		lo, hi := sc.Range[i][0], sc.Range[i][1]
+		for j := lo; j < hi; j++ {
+			st := 0
+			if j-lo < len(obs[i].Status) {
+				st = obs[i].Status[j-lo]
+			}
+			accepted[j] = st == 201
+			if !accepted[j] {
+				sum.Count("ingest/rejected_document")
+				if sc.Stream == "main" {
+					sum.HarnessError(fmt.Sprintf("scenario %s: document rejected with status %d: %s", sc.Name, st, clip(sc.Events[j].Doc)))
+				}
+			}
+		}
+	}
+	// walk the ops: blocks, model ops, oracle per query
+	var sops []string
+	var blockObs []string
+	var pending []Event
+	var flushed []Event
+	var lastQuery []map[string]string
+	lastQueryOK := false
+	closeBlock := func() {
+		if len(pending) > 0 {
+			evs := make([]string, len(pending))
+			for i, e := range pending {
+				evs[i] = coqEvent(e)
+			}
+			sops = append(sops, "SBlock "+vhlib.CoqListNL(evs))
+			flushed = append(flushed, pending...)
+			pending = nil
+		}
+	}
+	probeOK := sc.Probe
+	for i, op := range sc.Ops {
+		o := obs[i]
+		switch op.Kind {
+		case "ingest":
+			for j := sc.Range[i][0]; j < sc.Range[i][1]; j++ {
+				if accepted[j] {
+					pending = append(pending, sc.Events[j])
+				}
+			}
+		case "flush":
+			hadPending := len(pending) > 0
+			closeBlock()
+			if op.Probe {
+				if o.Err != "" {
+					sum.HarnessError(fmt.Sprintf("scenario %s: probe flush failed: %s", sc.Name, o.Err))
+					probeOK = false
+				}
+				if hadPending && len(o.Flushes) != 1 {
+					sum.HarnessError(fmt.Sprintf("scenario %s: probe flush returned %d blocks", sc.Name, len(o.Flushes)))
+					probeOK = false
+				}
+				for _, f := range o.Flushes {
+					blockObs = append(blockObs, "("+coqBlockObs(f)+")")
+					sum.Count(fmt.Sprintf("block/ts_type_%s", f.TsBlock[2:4]))
+					for _, c := range f.Cols {
+						switch {
+						case c.Pre != c.Post:
+							sum.Count("column/rewritten_by_consolidateColumnTypes")
+						case c.Enc == 0:
+							sum.Count("column/raw_block")
+						case c.Enc == 1:
+							sum.Count("column/dictionary_block")
+						default:
+							sum.Count("column/absent_in_block")
+						}
+						if c.RecsSC != nil {
+							sum.Count("column/constant_length_in_segment")
+							// the constant-length reader must see what the length-walking reader sees
+							same := len(c.RecsSC) == len(c.Recs)
+							for k := 0; same && k < len(c.Recs); k++ {
+								same = c.Recs[k] == c.RecsSC[k]
+							}
+							if !same {
+								sum.Fail("constant_length_shortcut_after_text_conversion",
+									fmt.Sprintf("column %q block %d: AllSeenColumnSizes says every record is %d bytes, but consolidateColumnTypes rewrote the block; SegmentFileReader with that length returns %v instead of %v", c.Name, f.BlockNum, c.Seen, c.RecsSC, c.Recs),
+									caseRef{Scenario: sc.Name, Stream: sc.Stream, Card: sc.Card, Ops: sc.Ops, Query: i, Key: c.Name})
+								res.fails++
+							}
+						}
+						if strings.Contains(strings.Join(c.Recs, ""), "!") {
+							sum.Count("column/reader_error")
+						}
+					}
+				}
+			}
+		case "rotate":
+			closeBlock()
+			sops = append(sops, "SRotate")
+			sum.Count("op/rotate")
+		case "restart":
+			closeBlock()
+			sops = append(sops, "SRestart")
+			sum.Count("op/restart")
+		case "query":
+			sum.Count(fmt.Sprintf("query/page_%d", op.Page))
+			if o.Err != "" {
+				sum.Fail("query_error", fmt.Sprintf("match-all query failed: %s", o.Err), caseRef{Scenario: sc.Name, Stream: sc.Stream, Ops: sc.Ops, Query: i})
+				res.fails++
+				lastQueryOK = false
+				continue
+			}
+			if exp, ok := sc.Expect[i]; ok {
+				// filter query of the known stream: expected timestamps
+				gotTs := map[uint64]bool{}
+				for _, r := range o.Recs {
+					n, _ := strconv.ParseUint(strings.TrimPrefix(r["timestamp"], "u:"), 10, 64)
+					gotTs[n] = true
+				}
+				for _, t := range exp {
+					if !gotTs[t] {
+						sum.Fail(strings.TrimPrefix(sc.Stream, "known:"), fmt.Sprintf("query %q does not return the event ts=%d that holds this value", op.Text, t),
+							caseRef{Scenario: sc.Name, Stream: sc.Stream, Ops: sc.Ops, Query: i, Ts: t})
+						res.fails++
+					}
+				}
+				continue
+			}
+			res.fails += oracle(sum, sc, i, op, o.Recs, flushed, nonNumStrCol)
+			sum.Eval(fmt.Sprintf("%s/q%d/%x", sc.Name, i, hashDocs(flushed)), len(flushed) > 0)
+			if op.Nulls {
+				lastQuery, lastQueryOK = o.Recs, true
+				if len(o.Recs) != len(flushed) {
+					lastQueryOK = true // still compared; the count check is part of check_e2e
+				}
+			}
+		}
+	}
+	if !sc.ToCoq {
+		return res
+	}
+	// Coq case
+	var sb strings.Builder
+	fc := tabs.coq()
+	card := sc.Card
+	if card == 0 {
+		card = 501
+	}
+	fmt.Fprintf(&sb, "Definition ops%d : list sop := %s.\n", si, vhlib.CoqListNL(sops))
+	var parts []string
+	if sc.Probe && probeOK {
+		fmt.Fprintf(&sb, "Definition obs%d : list blockobs := %s.\n", si, vhlib.CoqListNL(blockObs))
+		parts = append(parts, fmt.Sprintf("map N.of_nat (check_scenario %s %d ops%d obs%d)", fc, card, si, si))
+		res.ncoq += len(blockObs)
+	}
+	if lastQueryOK && lastQueryAtEnd(sc) && !sc.NoE2E {
+		var items []string
+		for _, r := range lastQuery {
+			t, _ := strconv.ParseUint(strings.TrimPrefix(r["timestamp"], "u:"), 10, 64)
+			var fs []Field
+			ks := map[string]bool{}
+			for k := range r {
+				ks[k] = true
+			}
+			for _, k := range sortedKeys(ks) {
+				if k == "timestamp" || r[k] == "n" {
+					continue
+				}
+				v, ok := parseCanon(r[k])
+				if !ok {
+					v = Val{K: "s", S: "?unparsed:" + r[k]}
+				}
+				fs = append(fs, Field{k, v})
+			}
+			items = append(items, "("+vhlib.CoqN(t)+", "+coqFields(fs)+")")
+		}
+		fmt.Fprintf(&sb, "Definition q%d : list (N * fields) := %s.\n", si, vhlib.CoqListNL(items))
+		parts = append(parts, fmt.Sprintf("map (fun c => 5000 + N.of_nat c) (check_e2e %s %d ops%d q%d)", fc, card, si, si))
+		res.ncoq++
+	}
+	if len(parts) == 0 {
+		return res
+	}
+	fmt.Fprintf(&sb, "Definition c%d : list N := map (fun c => %d * 10000 + c) (%s).\n", si, si, strings.Join(parts, " ++ "))
+	res.coq = strings.Join(curKeys.defs, "") + sb.String()
+	return res
+}
+
+// the last query of a scenario sees every event (all blocks are flushed before it)
+func lastQueryAtEnd(sc *Scenario) bool {
+	for i := len(sc.Ops) - 1; i >= 0; i-- {
+		switch sc.Ops[i].Kind {
+		case "query":
+			return sc.Ops[i].Nulls && sc.Expect[i] == nil
+		case "ingest":
+			return false
+		}
+	}
+	return false
+}
+
+func hashDocs(evs []Event) uint64 {
+	h := fnv.New64a()
+	for _, e := range evs {
+		h.Write([]byte(e.Doc))
+	}
+	return h.Sum64()
+}
+
+// ---------- known-class stream ----------
+func q(page int) Op { return Op{Kind: "query", Page: page, Nulls: true} }
+
+func genKnown(r *vhlib.Rng) []*Scenario {
+	var out []*Scenario
+	var sc *Scenario
+	add := func(sc *Scenario) { out = append(out, sc) }
+	// duplicate (flattened) key: raw block (cardinality limit reached) -> later records shift; dictionary block -> one value wins
+	add(handScenario("dupkey_raw", "known:duplicate_key_shifts_column", 2,
+		[][]string{{`{"a":7,"a":8,"z":"p"}`, `{"a":9,"z":"q"}`, `{"a":10,"z":"r"}`}}, []Op{q(2)}))
+	sc = handScenario("dupkey_dict", "known:duplicate_key_shifts_column", 0,
+		[][]string{{`{"a":7,"a":8}`, `{"a":9}`}}, []Op{q(10000)})
+	sc.NoE2E = true // record 0 is listed under two dictionary words: Go's map order decides which one is returned
+	add(sc)
+	add(handScenario("dupkey_flatten_collision", "known:duplicate_key_shifts_column", 1,
+		[][]string{{`{"a.b":1,"a":{"b":2},"c":"x"}`, `{"a.b":3,"c":"y"}`, `{"a":{"b":4},"c":"z"}`}}, []Op{{Kind: "rotate"}, q(1)}))
+	for k := 0; k < 3; k++ {
+		n := 2 + r.Intn(4)
+		var docs []string
+		dupAt := r.Intn(n - 1)
+		for i := 0; i < n; i++ {
+			if i == dupAt {
+				docs = append(docs, fmt.Sprintf(`{"k":"v%d","k":"w%d","m":%d}`, i, i, i))
+			} else {
+				docs = append(docs, fmt.Sprintf(`{"k":"v%d","m":%d}`, i, i))
+			}
+		}
+		add(handScenario(fmt.Sprintf("dupkey_rand%d", k), "known:duplicate_key_shifts_column", 1+r.Intn(2), [][]string{docs}, []Op{q(1 + r.Intn(4))}))
+	}
+	// number-looking strings in a column that also holds numbers
+	add(handScenario("numstr_min", "known:numeric_string_becomes_number", 0,
+		[][]string{{`{"a":5}`, `{"a":"007"}`, `{"a":"1e3"}`}}, []Op{q(2)}))
+	add(handScenario("numstr_nan_inf", "known:numeric_string_becomes_number", 3,
+		[][]string{{`{"a":1.5,"b":"x"}`, `{"a":"NaN","b":"y"}`, `{"a":"-Inf","b":"z"}`, `{"a":"0x1p4"}`, `{"a":"+5"}`}}, []Op{{Kind: "rotate"}, {Kind: "restart"}, q(3)}))
+	for k := 0; k < 3; k++ {
+		n := 3 + r.Intn(5)
+		var docs []string
+		for i := 0; i < n; i++ {
+			if i%2 == 0 {
+				docs = append(docs, fmt.Sprintf(`{"v":%s}`, vhlib.Pick(r, intPool)))
+			} else {
+				docs = append(docs, fmt.Sprintf(`{"v":%q}`, vhlib.Pick(r, []string{"007", "1e3", "42", "-5", "+5", "3.14", "1E2", "123456", ".5", "5."})))
+			}
+		}
+		add(handScenario(fmt.Sprintf("numstr_rand%d", k), "known:numeric_string_becomes_number", vhlib.Pick(r, []int{0, 2, 4}), [][]string{docs}, []Op{q(1 + r.Intn(5))}))
+	}
+	// bool / number columns turned into text without any non-numeric string
+	add(handScenario("bool_text_late", "known:bool_becomes_text", 0,
+		[][]string{{`{"b":1}`, `{"a":true,"b":1}`, `{"a":5,"b":1}`}}, []Op{q(10000)}))
+	add(handScenario("bool_text_mixed", "known:bool_becomes_text", 0,
+		[][]string{{`{"a":true}`, `{"a":1}`, `{"a":"x"}`}}, []Op{q(2)}))
+	add(handScenario("num_text_bloom_from_earlier_block", "known:number_becomes_text_without_string", 0,
+		[][]string{{`{"b":1}`, `{"a":false,"b":2}`}, {`{"a":2.5,"b":1}`, `{"a":true,"b":1}`}}, []Op{q(3)}))
+	// empty string values and the empty field name
+	sc = handScenario("empty_string_default_query", "known:empty_string_dropped_by_default", 0,
+		[][]string{{`{"em":"","x":1}`, `{"em":"full","x":2}`}}, []Op{{Kind: "query", Page: 10000}})
+	add(sc)
+	sc = handScenario("empty_field_name", "known:empty_field_name_value_lost", 0,
+		[][]string{{`{"":"v","x":1}`, `{"x":2}`}}, []Op{q(10000)})
+	sc.NoE2E = true // the value is in the column block (byte level agrees); it is lost in the result assembly, outside the model
+	add(sc)
+	// integer literals beyond int64 whose overflow jsonparser.ParseInt does not notice
+	// (the JSON number tokeniser is outside the model: not sent to Coq)
+	sc = handScenario("bigint_wrap_min", "known:big_integer_literal_wraps", 0,
+		[][]string{{`{"a":82500000000000000000}`, `{"a":1}`}}, []Op{q(10000)})
+	sc.ToCoq = false
+	add(sc)
+	for k := 0; k < 2; k++ {
+		lit := fmt.Sprintf("82%018d", r.U64()%1000000000000000000)
+		sc = handScenario(fmt.Sprintf("bigint_wrap_rand%d", k), "known:big_integer_literal_wraps", 0,
+			[][]string{{fmt.Sprintf(`{"a":%s,"b":"x"}`, lit), `{"a":2.5}`}}, []Op{q(10000)})
+		sc.ToCoq = false
+		add(sc)
+	}
+	// a first block of field-less events: FlushSegStats fails, the flush is abandoned half way
+	sc = handScenario("fieldless_first_block", "known:fieldless_first_block_breaks_flush", 0,
+		[][]string{{`{}`}, {`{"a":"x"}`}}, []Op{q(10000)})
+	sc.ToCoq = false // the abandoned flush (file protocol) is outside the column model
+	add(sc)
+	// constant record length recorded for the segment, then the block is rewritten as text
+	sc = handScenario("shortcut_after_text_conversion", "known:constant_length_shortcut_after_text_conversion", 0,
+		[][]string{{`{"a":5}`, `{"a":"abcdef"}`, `{"a":1.5}`, `{"a":"ghijkl"}`}},
+		[]Op{q(10000), {Kind: "rotate"}, {Kind: "query", Text: `a=ghijkl`, Nulls: true}})
+	sc.Expect[len(sc.Ops)-1] = []uint64{sc.Events[3].Ts}
+	add(sc)
+	return out
+}
+
+// ---------- codec streams (no server state) ----------
+func randTlvWord(r *vhlib.Rng) []byte {
+	switch r.Intn(5) {
+	case 0:
+		s := vhlib.Pick(r, strPool)
+		if r.Chance(20) {
+			s = longStr(r, 300+r.Intn(300))
+		}
+		return append([]byte{2, byte(len(s)), byte(len(s) >> 8)}, s...)
+	case 1:
+		return []byte{1, byte(r.Intn(2))}
+	case 2:
+		b := []byte{0x10, 0, 0, 0, 0, 0, 0, 0, 0}
+		x := r.U64() >> uint(r.Intn(64))
+		for i := 0; i < 8; i++ {
+			b[1+i] = byte(x >> (8 * uint(i)))
+		}
+		return b
+	case 3:
+		b := []byte{0x11, 0, 0, 0, 0, 0, 0, 0, 0}
+		x := r.U64()
+		for i := 0; i < 8; i++ {
+			b[1+i] = byte(x >> (8 * uint(i)))
+		}
+		return b
+	}
+	return []byte{0x13}
+}
+
+// dictionary pack/unpack: real PackDictEnc bytes parse to the model's entries (map order free) and
+// the real ReadDictEnc tables equal the model's read_dict on the same bytes
+func codecDict(sum *vhlib.Summary, r *vhlib.Rng, n int, dir string) {
+	var cases []string
+	for c := 0; c < n; c++ {
+		nrec := 1 + r.Intn(40)
+		nw := 1 + r.Intn(6)
+		if nw > nrec {
+			nw = nrec
+		}
+		words := [][]byte{}
+		seen := map[string]bool{}
+		for len(words) < nw {
+			w := randTlvWord(r)
+			if !seen[string(w)] {
+				seen[string(w)] = true
+				words = append(words, w)
+			}
+		}
+		recs := make([][]uint16, nw)
+		for i := 0; i < nrec; i++ {
+			k := r.Intn(nw)
+			recs[k] = append(recs[k], uint16(i))
+		}
+		packed := writer.VerifC01PackDict(words, recs, uint16(nrec))
+		sums := []*structs.BlockSummary{{RecCount: uint16(nrec)}}
+		sfr, _ := segreader.InitNewSegFileReader(nil, "c", map[uint16]struct{}{0: {}}, 0, sums, sutils.INCONSISTENT_CVAL_SIZE, nil)
+		err := sfr.ReadDictEnc(packed, 0)
+		var obs string
+		if err != nil {
+			obs = "None"
+		} else {
+			var tl, tb []string
+			for _, w := range sfr.GetDeTlv() {
+				tl = append(tl, coqBx(w))
+			}
+			for _, x := range sfr.GetDeRecToTlv() {
+				tb = append(tb, strconv.Itoa(int(x)))
+			}
+			obs = "(Some (" + vhlib.CoqList(tl) + ", [" + strings.Join(tb, ";") + "]))"
+		}
+		var d []string
+		for i, w := range words {
+			var rs []string
+			for _, x := range recs[i] {
+				rs = append(rs, strconv.Itoa(int(x)))
+			}
+			d = append(d, "("+coqBx(w)+", ["+strings.Join(rs, ";")+"])")
+		}
+		cases = append(cases, fmt.Sprintf("(%d%%nat, %s, %s, %s)", nrec, vhlib.CoqList(d), coqBx(packed), obs))
+		sum.Eval(fmt.Sprintf("dict/%x", fnvBytes(packed)), true)
+		sum.Count("codec/dictionary_pack_unpack")
+	}
+	defs := "Definition cases : list (nat * list (bytes * list N) * bytes * option (list bytes * list N)) := " + vhlib.CoqListNL(cases) + ".\n" +
+		`Definition tbl_eqb (a b : option (list bytes * list N)) : bool :=
+  match a, b with
+  | Some (t1, r1), Some (t2, r2) => list_eqb bytes_eqb t1 t2 && list_eqb N.eqb r1 r2
+  | None, None => true
+  | _, _ => false
+  end.
+Definition ok1 (c : nat * list (bytes * list N) * bytes * option (list bytes * list N)) : bool :=
+  let '(n, d, packed, obs) := c in
+  (match parse_dict packed with Some (cnt, es) => (cnt =? N.of_nat (length d)) && dict_same d es | None => false end)
+  && tbl_eqb (read_dict n packed) obs.
+Fixpoint bad (i : nat) (l : list (nat * list (bytes * list N) * bytes * option (list bytes * list N))) : list nat :=
+  match l with [] => [] | c :: r => (if ok1 c then [] else [i]) ++ bad (S i) r end.
+`
+	sum.WriteCaseFile(dir, "dictcodec", "From Coq Require Import Uint63.\nFrom SigM Require Import Base Tlv TsEnc ColStore ColStoreCheck.", defs, "bad 0 cases", n)
+}
+
+// TLV decoding: real GetCvalFromRec vs dec_val on every scalar type incl. the small integer types
+func codecTlv(sum *vhlib.Summary, r *vhlib.Rng, n int, dir string) {
+	var cases []string
+	for c := 0; c < n; c++ {
+		var rec []byte
+		t := vhlib.Pick(r, []byte{1, 2, 3, 4, 5, 6, 7, 8, 9, 0x10, 0x11, 0x13})
+		width := map[byte]int{1: 1, 3: 1, 4: 2, 5: 4, 6: 8, 7: 1, 8: 2, 9: 4, 0x10: 8, 0x11: 8, 0x13: 0}
+		if t == 2 {
+			rec = randTlvWord(r)
+			for rec[0] != 2 {
+				rec = randTlvWord(r)
+			}
+		} else {
+			rec = []byte{t}
+			for i := 0; i < width[t]; i++ {
+				b := byte(r.U64())
+				if r.Chance(30) {
+					b = vhlib.Pick(r, []byte{0, 0xff, 0x80, 0x7f})
+				}
+				rec = append(rec, b)
+			}
+		}
+		tail := r.Intn(3)
+		for i := 0; i < tail; i++ {
+			rec = append(rec, byte(r.U64()))
+		}
+		var cv sutils.CValueEnclosure
+		end, err := writer.GetCvalFromRec(rec, 0, &cv)
+		exp := "None"
+		if err == nil {
+			v := ""
+			switch x := cv.CVal.(type) {
+			case string:
+				v = "VStr " + vhlib.CoqStr(x)
+			case bool:
+				v = "VBool " + vhlib.CoqBool(x)
+			case int64:
+				v = "VInt " + vhlib.CoqZ(x) + "%Z"
+			case uint64:
+				v = "VUint " + vhlib.CoqN(x)
+			case float64:
+				v = "VFloat " + vhlib.CoqN(math.Float64bits(x))
+			case nil:
+				v = "VNull"
+			}
+			exp = fmt.Sprintf("(Some (%s, %d))", v, int(end))
+		}
+		cases = append(cases, "("+coqBx(rec)+", "+exp+")")
+		sum.Eval(fmt.Sprintf("tlv/%x", fnvBytes(rec)), true)
+		sum.Count(fmt.Sprintf("codec/tlv_type_%02x", t))
+	}
+	defs := "Definition cases : list (bytes * option (cval * N)) := " + vhlib.CoqListNL(cases) + ".\n" +
+		`Definition ok1 (c : bytes * option (cval * N)) : bool :=
+  let '(rec, exp) := c in
+  match dec_val rec, exp with
+  | Some (v, rest), Some (v', e) => cval_eqb v v' && (N.of_nat (length rec - length rest) =? e)
+       && (match reclen rec with Some l => l =? e | None => false end)
+  | None, None => true
+  | _, _ => false
+  end.
+Fixpoint bad (i : nat) (l : list (bytes * option (cval * N))) : list nat :=
+  match l with [] => [] | c :: r => (if ok1 c then [] else [i]) ++ bad (S i) r end.
+`
+	sum.WriteCaseFile(dir, "tlvcodec", "From Coq Require Import Uint63.\nFrom SigM Require Import Base Tlv TsEnc ColStore ColStoreCheck.", defs, "bad 0 cases", n)
+}
+
+func fnvBytes(b []byte) uint64 {
+	h := fnv.New64a()
+	h.Write(b)
+	return h.Sum64()
+}
+
+// ---------- main ----------
 func main() {
 	if len(os.Args) >= 5 && os.Args[1] == "worker" {
 		workerMain(os.Args[2], os.Args[3], os.Args[4])
@@ -93,5 +1012,150 @@ func main() {
 		}
 		return
 	}
-	fmt.Println("generator not yet built")
+	cfg := vhlib.ParseFlags()
+	sum := vhlib.NewSummary("distinct = (scenario, query op, hash of the documents flushed before the query) for end-to-end evaluations with at least one flushed event; (hash of the packed bytes / record bytes) for the codec streams")
+	r := vhlib.NewRng(cfg.Seed)
+	nProbe, nPlain, nBig := 70, 70, 4
+	nCodec := 150
+	if cfg.Thorough() {
+		nProbe, nPlain, nBig, nCodec = 700, 1200, 60, 3000
+	}
+	var scs []*Scenario
+	for i := 0; i < nProbe; i++ {
+		scs = append(scs, genMain(r.Fork(), fmt.Sprintf("probe%d", i), true, false))
+	}
+	for i := 0; i < nPlain; i++ {
+		scs = append(scs, genMain(r.Fork(), fmt.Sprintf("plain%d", i), false, false))
+	}
+	for i := 0; i < nBig; i++ {
+		scs = append(scs, genMain(r.Fork(), fmt.Sprintf("big%d", i), false, true))
+	}
+	scs = append(scs, genSpecial(r.Fork(), cfg.Thorough())...)
+	kr := r.Fork()
+	scs = append(scs, genKnown(kr)...)
+
+	// run
+	results := make([][]Obs, len(scs))
+	errs := make([]error, len(scs))
+	var wg sync.WaitGroup
+	sem := make(chan struct{}, 8)
+	base := filepath.Join(cfg.Out, "run")
+	for i := range scs {
+		wg.Add(1)
+		sem <- struct{}{}
+		go func(i int) {
+			defer wg.Done()
+			defer func() { <-sem }()
+			dir := filepath.Join(base, fmt.Sprintf("s%d", i))
+			results[i], errs[i] = runScenario(dir, scs[i].Ops)
+			_ = os.RemoveAll(dir)
+		}(i)
+	}
+	wg.Wait()
+	var mu sync.Mutex
+	var coqDefs []string
+	var coqIdx []int
+	for i, sc := range scs {
+		sum.Count("stream/" + sc.Stream)
+		if errs[i] != nil {
+			// a crash/hang of the server code under a generated scenario
+			if strings.HasPrefix(sc.Stream, "known:") {
+				sum.Fail(strings.TrimPrefix(sc.Stream, "known:"), "worker failed: "+errs[i].Error(), caseRef{Scenario: sc.Name, Stream: sc.Stream, Ops: sc.Ops})
+			} else {
+				sum.Fail("worker_crash", "worker failed: "+errs[i].Error(), caseRef{Scenario: sc.Name, Stream: sc.Stream, Card: sc.Card, Ops: sc.Ops})
+			}
+			continue
+		}
+		res := evalScenario(sum, &mu, i, sc, results[i])
+		if res.coq != "" {
+			coqDefs = append(coqDefs, res.coq)
+			coqIdx = append(coqIdx, i)
+		}
+		if len(sum.Samples) < 3 && sc.Stream == "main" && len(sc.Events) > 0 {
+			sum.Sample(map[string]interface{}{"scenario": sc.Name, "card": sc.Card, "n_events": len(sc.Events), "first_doc": clip(sc.Events[0].Doc), "ops": opKinds(sc.Ops)})
+		}
+		_ = res
+	}
+	// shard the Coq case files by size
+	imports := "From Coq Require Import Uint63.\nFrom SigM Require Import Base Tlv TsEnc ColStore ColStoreCheck."
+	var cur strings.Builder
+	var curIdx []int
+	shard := 0
+	flush := func() {
+		if len(curIdx) == 0 {
+			return
+		}
+		var parts []string
+		for _, i := range curIdx {
+			parts = append(parts, fmt.Sprintf("c%d", i))
+		}
+		sum.WriteCaseFile(cfg.Out, fmt.Sprintf("cases%d", shard), imports, cur.String(), "concat ["+strings.Join(parts, "; ")+"]", len(curIdx))
+		shard++
+		cur.Reset()
+		curIdx = nil
+	}
+	for k, d := range coqDefs {
+		if cur.Len()+len(d) > 350000 && len(curIdx) > 0 {
+			flush()
+		}
+		cur.WriteString(d)
+		curIdx = append(curIdx, coqIdx[k])
+	}
+	flush()
+	codecDict(sum, r.Fork(), nCodec, cfg.Out)
+	codecTlv(sum, r.Fork(), nCodec*2, cfg.Out)
+	sum.Notes = append(sum.Notes,
+		"every event carries an explicit, scenario-unique 13-digit millisecond timestamp; match-all queries pass explicit epochs, includeNulls=true and are paged",
+		"floats are compared by bit pattern; expected value of a JSON number literal = int64 if it is an integer literal in range, else strconv.ParseFloat",
+		"dictionary blocks are compared entry-wise (Go map order is free); raw blocks after zstd decompression byte for byte")
+	sum.Write(cfg.Out)
+}
+
+func opKinds(ops []Op) string {
+	var ks []string
+	for _, o := range ops {
+		ks = append(ks, o.Kind)
+	}
+	return strings.Join(ks, ",")
+}
+
+// special main-stream scenarios: cardinality across the default limit 501, long values, one-event blocks
+func genSpecial(r *vhlib.Rng, thorough bool) []*Scenario {
+	var out []*Scenario
+	// default dictionary limit: columns with 499..503 distinct values in one block
+	for _, distinct := range []int{499, 500, 501, 502} {
+		sc := &Scenario{Name: fmt.Sprintf("card501_%d", distinct), Stream: "main", Probe: true, ToCoq: false, DupCols: map[string]bool{}, Expect: map[int][]uint64{}}
+		var docs []string
+		n := distinct + 20
+		for i := 0; i < n; i++ {
+			ts := tsBase + 1 + uint64(i)*3
+			v := i % distinct
+			d := fmt.Sprintf(`{"timestamp":%d,"hc":"v%d","lc":%d,"u":%d}`, ts, v, i%7, i)
+			ev := Event{Ts: ts, Doc: d, Fields: []Field{{"hc", Val{K: "s", S: fmt.Sprintf("v%d", v)}}, {"lc", Val{K: "i", I: int64(i % 7)}}, {"u", Val{K: "i", I: int64(i)}}}}
+			sc.Events = append(sc.Events, ev)
+			docs = append(docs, d)
+		}
+		sc.Ops = []Op{{Kind: "ingest", Docs: docs}, {Kind: "flush", Probe: true}, {Kind: "query", Page: 97, Nulls: true}, {Kind: "rotate"}, {Kind: "restart"}, {Kind: "query", Page: 10000, Nulls: true}}
+		sc.Range = [][2]int{{0, n}, {}, {}, {}, {}, {}}
+		sc.ToCoq = distinct == 500 || distinct == 501
+		out = append(out, sc)
+	}
+	// long values: documents close to the 63,000-byte record limit
+	{
+		sc := &Scenario{Name: "long_values", Stream: "main", Probe: false, ToCoq: false, DupCols: map[string]bool{}, Expect: map[int][]uint64{}}
+		var docs []string
+		for i, n := range []int{30000, 62000, 100, 45000} {
+			ts := tsBase + 1 + uint64(i)
+			s := longStr(r, n)
+			s2 := longStr(r, 10+r.Intn(500))
+			d := fmt.Sprintf(`{"timestamp":%d,"big":%q,"small":%q,"i":%d}`, ts, s, s2, i)
+			ev := Event{Ts: ts, Doc: d, Fields: []Field{{"big", Val{K: "s", S: s}}, {"small", Val{K: "s", S: s2}}, {"i", Val{K: "i", I: int64(i)}}}}
+			sc.Events = append(sc.Events, ev)
+			docs = append(docs, d)
+		}
+		sc.Ops = []Op{{Kind: "ingest", Docs: docs}, {Kind: "flush"}, {Kind: "query", Page: 2, Nulls: true}, {Kind: "rotate"}, {Kind: "query", Page: 3, Nulls: true}}
+		sc.Range = [][2]int{{0, 4}, {}, {}, {}, {}}
+		out = append(out, sc)
+	}
+	return out
 }
